@@ -502,3 +502,65 @@ pub fn strkey_docs() -> Vec<RVal> {
     }
     out
 }
+
+/// scalars whose payload bytes look like structure: strings starting with (or made of) bytes that
+/// are type tags, header bytes or number markers; integers and floats whose big-endian image holds
+/// 0x00, 0x20, 0x22, 0x40, 0x50, 0x5c, 0x60, 0x80 bytes
+pub fn tag_scalars() -> Vec<RVal> {
+    let mut v: Vec<RVal> = vec![RVal::Null, RVal::Bool(true), RVal::Bool(false)];
+    for s in [" ", " \0\0\0", "@", "@\0\0\u{1}", "P", "P\u{1}", "`", "0", "\u{10}", "\0", "\u{20}\u{0}\u{0}\u{0}\u{10}\u{0}\u{0}\u{0}", "\u{7f}", "\"", "\\"] {
+        v.push(RVal::s(s));
+    }
+    for n in [0u64, 32, 34, 64, 80, 92, 96, 128, 0x0100, 0x2000, 0x2200, 0x4000, 0x5c00, 0x8000, 0x2222, 0x5c5c, 0x0001_0000, 0x2000_0000, 0x4000_0001, 0x8000_0000, 0x2000_0000_0000_0000, 0x8000_0000_0000_0000] {
+        v.push(RVal::u(n));
+    }
+    for n in [-32i64, -34, -64, -92, -128, -256, -0x2000, -0x8000, -0x2000_0000, -0x8000_0000, i64::MIN] {
+        v.push(RVal::i(n));
+    }
+    for f in [2.0f64, -2.0, 8.0, 0.5, 1.0000000000000002, 3.0e-320] {
+        v.push(RVal::f(f));
+    }
+    v
+}
+
+/// keys that are keywords of the path language or literals
+pub const KEYWORD_KEYS: [&str; 9] = ["last", "to", "exists", "null", "true", "false", "$", "@", "a"];
+
+/// documents over the tag-like scalars: each alone, as the only element, every ordered pair as an
+/// array, each under every keyword key, and two-member objects over neighbouring keyword keys
+pub fn tagv_docs() -> Vec<RVal> {
+    let sc = tag_scalars();
+    let mut out = vec![];
+    for (i, a) in sc.iter().enumerate() {
+        out.push(a.clone());
+        out.push(RVal::Arr(vec![a.clone()]));
+        for b in sc.iter() {
+            out.push(RVal::Arr(vec![a.clone(), b.clone()]));
+        }
+        for (k, key) in KEYWORD_KEYS.iter().enumerate() {
+            out.push(RVal::obj(vec![(key, a.clone())]));
+            let k2 = KEYWORD_KEYS[(k + 1) % KEYWORD_KEYS.len()];
+            out.push(RVal::obj(vec![(key, a.clone()), (k2, sc[(i + 7 * k + 3) % sc.len()].clone())]));
+        }
+    }
+    out
+}
+
+/// a smaller family for the all-pairs relations: each tag-like scalar alone, as only element, as
+/// only member, and paired with 8 representatives in both orders
+pub fn tagv_relation_docs() -> Vec<RVal> {
+    let sc = tag_scalars();
+    let reps: Vec<RVal> = sc.iter().step_by(7).cloned().collect();
+    let mut out = vec![];
+    for a in sc.iter() {
+        out.push(a.clone());
+        out.push(RVal::Arr(vec![a.clone()]));
+        out.push(RVal::obj(vec![("a", a.clone())]));
+        for b in reps.iter() {
+            out.push(RVal::Arr(vec![a.clone(), b.clone()]));
+            out.push(RVal::Arr(vec![b.clone(), a.clone()]));
+        }
+    }
+    let mut seen = std::collections::HashSet::new();
+    out.into_iter().filter(|x| seen.insert(x.clone())).collect()
+}
